@@ -11,6 +11,7 @@ import (
 	"crypto/rsa"
 	"fmt"
 	"math/big"
+	"reflect"
 
 	"github.com/tink-crypto/tink-go/v2/aead/aesctrhmac"
 	"github.com/tink-crypto/tink-go/v2/aead/aesgcm"
@@ -60,8 +61,14 @@ type gcase struct {
 	// lossy: this valid combination cannot be represented in the proto (the serializer drops a
 	// parameter); the harness still runs the property check on it and reports the class.
 	lossy string
-	// noser: the serializer is documented to refuse this valid combination.
+	// noser: the serializer is known to refuse this valid combination (used only to keep such
+	// keys out of the keyset stream; the refusal itself is reported as UNSERIALIZABLE).
 	noser string
+	// docUnserKey / docUnserParams: the two documented classes for which a serializer ERROR is only
+	// counted, not reported: AES-GCM with IV size != 12 or tag size != 16 (key and parameters), and
+	// JWT parameters with the CustomKID strategy (parameters only).
+	docUnserKey    string
+	docUnserParams string
 	// noKeyset: leave out of the keyset stream (no primitive, too slow, or lossy).
 	noKeyset bool
 	// paramsLossy: SerializeParameters/ParseParameters cannot give back Equal parameters.
@@ -388,6 +395,7 @@ func gridAESGCM() (out []gcase) {
 					if iv != 12 || tag != 16 {
 						c.lossy = "AesGcmKey: iv size != 12 or tag size != 16 is not representable in the proto"
 						c.paramsLossy = c.lossy
+						c.docUnserKey, c.docUnserParams = "aes-gcm-iv-size-not-12-or-tag-size-not-16", "aes-gcm-iv-size-not-12-or-tag-size-not-16"
 						c.noKeyset = true
 					}
 					if ks == 24 {
@@ -1087,5 +1095,10 @@ func allGrids(seed uint64) []gcase {
 	out = append(out, gridStreaming()...)
 	out = append(out, gridJWT()...)
 	out = append(out, gridKD(r)...)
+	for i := range out {
+		if m := reflect.ValueOf(out[i].params).MethodByName("KIDStrategy"); m.IsValid() && fmt.Sprint(m.Call(nil)[0].Interface()) == "CustomKID" {
+			out[i].docUnserParams = "jwt-custom-kid-strategy"
+		}
+	}
 	return out
 }
